@@ -99,7 +99,7 @@ class Build:
             lock.close()
         return self
 
-    GENERATED = ["Generated", "GeneratedBehavior", "GeneratedJoin", "GeneratedOps"]
+    GENERATED = ["Generated", "GeneratedChars", "GeneratedTermn", "GeneratedWhen", "GeneratedConst", "GeneratedBehavior", "GeneratedJoin", "GeneratedOps"]
 
     def _extract(self):
         """regenerate the tables and the translated functions from /repo/src (tools/extract.py writes Wax/Generated*.lean)"""
@@ -120,7 +120,7 @@ class Build:
             if st.get("changed"):
                 self.notes.append("generated files differ from the committed ones: %s" % ", ".join(st["changed"]))
             for g, why in sorted(st.get("untranslatable", {}).items()):
-                self.failures.append(("obligation", "tools/rs2lean.py: a function of the source is outside the translatable fragment (%s): the tie by translation of Wax/%s.lean no longer applies" % ("; ".join(why)[:200], g),
+                self.failures.append(("obligation", "tools/extract.py: a table or function of the source could not be read or translated (%s): the tie by regeneration of Wax/%s.lean no longer applies" % ("; ".join(why)[:200], g),
                                       "; ".join(why)[-400:], ["Wax." + g]))
         self.times["extract"] = round(time.time() - t0, 2)
 
